@@ -545,6 +545,7 @@ void World::ledger_request(Client &cl, const std::string &text) {
 	}
 	// password changes attempted while only the ledger judges (after a failed allocation): each may replace an item of the in-memory credential database
 	if (text.find("\"passwd\"") != std::string::npos) { JV q; if (json_parse(text, q)) { if (q.t == JV::Obj && q.gets("method") == "passwd") passwd_in_ledger_mode++; if (q.t == JV::Arr) for (auto &m : q.a) if (m.t == JV::Obj && m.gets("method") == "passwd") passwd_in_ledger_mode++; } }
+	if (json_parse(text, j) && jv_has_nul(j)) { cl.policy.set("maydrop", JV::boolean(true)); cl.no_expect = true; probe("ledger_message_with_escaped_nul"); return; }
 	if (!json_parse(text, j)) {
 		// the harness parser is strict, the daemon's is lenient: what it makes of this text is not predictable, so only survival is checked on this connection from here on
 		cl.policy.set("maydrop", JV::boolean(true)); cl.no_expect = true; probe("ledger_unparsable_message"); return;
